@@ -182,6 +182,15 @@ class _Global(ast.NodeTransformer):
                 gen = ast.GeneratorExp(elt=elt, generators=[ast.comprehension(target=lp.target, iter=lp.iter, ifs=ifs_, is_async=0)])
                 ret = ast.copy_location(ast.Return(value=ast.Call(func=ast.Name(id=fn, ctx=ast.Load()), args=[gen], keywords=[])), lp)
                 return res[:i] + [ret] + res[i + 2:]
+        # G18: `if c: return <complex>` ; `return <constant | NotImplemented>` -> guard-clause form `if not c: return <constant>` ; `return <complex>`
+        if len(res) >= 2 and isinstance(res[-1], ast.Return) and isinstance(res[-2], ast.If) and not res[-2].orelse and len(res[-2].body) == 1 \
+                and isinstance(res[-2].body[0], ast.Return):
+            simple = lambda v: v is None or isinstance(v, ast.Constant) or (isinstance(v, ast.Name) and v.id == "NotImplemented")
+            a_, b_ = res[-2].body[0].value, res[-1].value
+            if simple(b_) and not simple(a_):
+                t = res[-2].test
+                res[-2].test = t.operand if isinstance(t, ast.UnaryOp) and isinstance(t.op, ast.Not) else ast.UnaryOp(op=ast.Not(), operand=t)
+                res[-2].body[0].value, res[-1].value = b_, a_
         # G10: `xs = []` ... `for T in I: [if C:] xs.append(E)` -> `xs = [E for T in I if C]` (nothing in between mentions xs)
         changed = True
         while changed:
